@@ -235,3 +235,44 @@ def random_pats(rng, profile, count, depth=3, max_nodes=14, first_id=1):
         seen.add(key)
         out.append({"id": first_id + len(out), "ast": ast, "ng": g.ng})
     return out
+
+
+# ----- C03 sampler: multi-site injection of (?=) (single sites are exported exhaustively by the spec) -----
+E0 = {"k": "look", "neg": False, "x": {"k": "empty"}}
+
+
+def paths(e, pre=()):
+    out = [pre]
+    k = e["k"]
+    if k in ("cat", "alt"):
+        for i, x in enumerate(e["xs"]):
+            out += paths(x, pre + (("xs", i),))
+    elif k in ("rep", "grp", "atom", "look", "lookb"):
+        out += paths(e["x"], pre + (("x", None),))
+    elif k == "cond":
+        for f in ("c", "y", "n"):
+            out += paths(e[f], pre + ((f, None),))
+    return out
+
+
+def inject_at(e, path, before):
+    import copy
+    if not path:
+        return {"k": "cat", "xs": [copy.deepcopy(E0), copy.deepcopy(e)] if before else [copy.deepcopy(e), copy.deepcopy(E0)]}
+    (f, i), rest = path[0], path[1:]
+    e = dict(e)
+    if f == "xs":
+        xs = list(e["xs"])
+        xs[i] = inject_at(xs[i], rest, before)
+        e["xs"] = xs
+    else:
+        e[f] = inject_at(e[f], rest, before)
+    return e
+
+
+def inject_random(rng, ast, k):
+    cur = ast
+    for _ in range(k):
+        ps = paths(cur)
+        cur = inject_at(cur, rng.choice(ps), rng.random() < 0.5)
+    return cur
